@@ -248,7 +248,36 @@ func EncodeWriter(w io.Writer, privKey crypto.PrivKey, token Tokener, encFn code
 		return err
 	}
 
-	return ipld.EncodeStreaming(w, node, encFn)
+	return EncodeStreaming(w, node, encFn)
+}
+
+// EncodeStreaming is ipld.EncodeStreaming, except that an error of the
+// underlying io.Writer is always reported: some encoders (DAG-JSON) don't
+// propagate the write errors, and would report a success for output that
+// was not written.
+func EncodeStreaming(w io.Writer, node datamodel.Node, encFn codec.Encoder) error {
+	ew := &errWriter{w: w}
+	if err := ipld.EncodeStreaming(ew, node, encFn); err != nil {
+		return err
+	}
+	return ew.err
+}
+
+// errWriter latches the first error of the wrapped io.Writer.
+type errWriter struct {
+	w   io.Writer
+	err error
+}
+
+func (ew *errWriter) Write(p []byte) (int, error) {
+	if ew.err != nil {
+		return 0, ew.err
+	}
+	n, err := ew.w.Write(p)
+	if err != nil {
+		ew.err = err
+	}
+	return n, err
 }
 
 // ToDagCbor marshals the Tokener to the DAG-CBOR format.
